@@ -11,8 +11,14 @@ validate_encoded = decode
 def validate_decoded(alignment):
   if isinstance(alignment, gfapy.CIGAR):
     alignment.validate(version = "gfa2")
-  else:
+  elif isinstance(alignment, gfapy.Trace) or \
+      isinstance(alignment, gfapy.Placeholder):
     alignment.validate()
+  else:
+    raise gfapy.TypeError(
+      "the class {} is incompatible with the datatype\n"
+      .format(alignment.__class__.__name__)+
+      "(accepted classes: CIGAR, Trace, AlignmentPlaceholder)")
 
 def unsafe_encode(obj):
   return str(obj)
